@@ -162,6 +162,68 @@ func suiteMutate(tier string, seed uint64, model string) *Report {
 			}
 		}
 	}
+	// a filter in the middle of the path whose operand is anchored at the document root
+	{
+		dps, dds := directedJpCases()
+		for i, dp := range dps {
+			if len(dp) < 3 || dp[len(dp)-1].Kind != "c" || !pathHas(dp, "f") || pathHas(dp, "D") {
+				continue
+			}
+			for _, op := range []int{0, 1, 2, 3} {
+				for _, one := range []bool{false, true} {
+					c := cs{op: op, one: one, path: dp, data: dds[i], val: int64(99)}
+					cases = append(cases, c)
+					cmd := "mutate"
+					if one {
+						cmd = "mutate1"
+					}
+					reqs = append(reqs, fmt.Sprintf("%s\t%d\t%s\t%s\t%s", cmd, op, PathSexp(c.path), Show(c.data), Show(c.val)))
+					reqs = append(reqs, fmt.Sprintf("%sk\t%d\t%s\t%s\t%s", cmd, op, PathSexp(c.path), Show(c.data), Show(c.val)))
+				}
+			}
+		}
+	}
+	// slice grid: a slice as last fragment (and one level up) with bounds -6..6 in either order and
+	// steps absent / 1 / 2 / -1 on arrays of 0..5 elements, for Remove, RemoveOne and Modify
+	{
+		sl := func(b ...int) Frag { return Frag{Kind: "s", Slice: b} }
+		arrs := []any{}
+		for ln := 0; ln <= 5; ln++ {
+			a := make([]any, ln)
+			for i := range a {
+				a[i] = int64(i)
+			}
+			arrs = append(arrs, a)
+		}
+		bounds := []int{-6, -3, -2, -1, 0, 1, 2, 3, 4, 6}
+		for _, a := range arrs {
+			for _, lo := range bounds {
+				for _, hi := range bounds {
+					for _, st := range []int{0, 1, 2, -1} {
+						f := sl(lo, hi)
+						if st != 0 {
+							f = sl(lo, hi, st)
+						}
+						for _, op := range []int{2, 3} {
+							for _, one := range []bool{false, true} {
+								if one && (lo+hi+st)%3 != 0 {
+									continue
+								}
+								c := cs{op: op, one: one, path: []Frag{R, f}, data: a, val: int64(99)}
+								cases = append(cases, c)
+								cmd := "mutate"
+								if one {
+									cmd = "mutate1"
+								}
+								reqs = append(reqs, fmt.Sprintf("%s\t%d\t%s\t%s\t%s", cmd, op, PathSexp(c.path), Show(c.data), Show(c.val)))
+								reqs = append(reqs, fmt.Sprintf("%sk\t%d\t%s\t%s\t%s", cmd, op, PathSexp(c.path), Show(c.data), Show(c.val)))
+							}
+						}
+					}
+				}
+			}
+		}
+	}
 	ans, err := RunModel(model, reqs)
 	if err != nil {
 		rep.Add(Disagreement{Kind: "harness-error", Detail: err.Error()})
@@ -225,7 +287,9 @@ func suiteMutate(tier string, seed uint64, model string) *Report {
 			}
 			return ""
 		}
+		xr := x // the expression the next run uses (swapped for the defused re-run)
 		run := func(data any, isGen bool) (res any, errs string) {
+			x := xr
 			defer func() {
 				if rc := recover(); rc != nil {
 					errs = "F " + strings.ReplaceAll(fmt.Sprint(rc), "\n", " ")
@@ -318,6 +382,18 @@ func suiteMutate(tier string, seed uint64, model string) *Report {
 				kind = "impl-vs-spec:mutate-one"
 			}
 			cl := classOf(got, c.one)
+			if cl == "" && !c.one && c.op >= 2 && !hasSlice && filterHasRootOperand(c.path) {
+				// exact attribution for "a filter's $ operand is read from the document while the same
+				// call is already changing it": with every $ operand replaced by the scalar it denotes in
+				// the original document the same call gives the specified result
+				if dp, changed, ok := defuseRootOperands(c.path, c.data); changed && ok {
+					xr = BuildExpr(dp)
+					if r2, e2 := run(deepCopy(c.data), false); e2 == "" && Show(r2) == body {
+						cl = "filter-root-operand-sees-modified-document"
+					}
+					xr = x
+				}
+			}
 			if comparable && !(c.one && filterRoot) {
 				add(Disagreement{Case: desc, Where: name, Kind: kind, Impl: got, Spec: body, Class: cl})
 			} else if cl != "" {
@@ -333,7 +409,17 @@ func suiteMutate(tier string, seed uint64, model string) *Report {
 		if strings.HasPrefix(gerrs, "F ") {
 			rep.Add(Disagreement{Case: desc, Where: name + "/gen", Kind: "impl-vs-spec:mutate-panic", Impl: gerrs})
 		} else if gerrs == "" && !c.one && Show(gres) != body {
-			add(Disagreement{Case: desc, Where: name + "/gen", Kind: "impl-vs-spec:mutate", Impl: Show(gres), Spec: body, Class: classOf(Show(gres), false)})
+			gcl := classOf(Show(gres), false)
+			if gcl == "" && c.op >= 2 && !hasSlice && filterHasRootOperand(c.path) {
+				if dp, changed, ok := defuseRootOperands(c.path, c.data); changed && ok {
+					xr = BuildExpr(dp)
+					if r2, e2 := run(toGen(deepCopy(c.data)), true); e2 == "" && Show(r2) == body {
+						gcl = "filter-root-operand-sees-modified-document"
+					}
+					xr = x
+				}
+			}
+			add(Disagreement{Case: desc, Where: name + "/gen", Kind: "impl-vs-spec:mutate", Impl: Show(gres), Spec: body, Class: gcl})
 		} else if gerrs == "" && c.one && !(c.one && filterRoot) {
 			gg := Show(gres)
 			in := false
